@@ -362,3 +362,10 @@ func (g *grid) CellGood(c model3d.Coord3D) [3]int {
 func Swizzle(c model3d.Coord3D) model3d.Coord3D {
 	return model3d.XYZ(c.Y, c.Z, c.X)
 }
+
+func span(o1, o2, d1, d2 float64) float64 { return o1 + o2 + d1 + d2 }
+
+// silent:AXISCALL the second call is not a per-axis sibling of the first (other argument positions).
+func TwoSpans(o, d model3d.Coord3D) float64 {
+	return span(o.X, o.Y, d.X, d.Y) + span(o.Z, 0, d.Z, 1)
+}
